@@ -23,11 +23,12 @@
 // (EMFILE; the pending connection stays in the backlog and the listening socket stays readable)
 static std::atomic<int> failAccepts(0);
 static std::atomic<int> failedAccepts(0);
+static void recordFailedAccept();
 extern "C" int accept(int fd, struct sockaddr* a, socklen_t* l)
 {
 	typedef int (*Fn)(int, struct sockaddr*, socklen_t*);
 	static Fn real = (Fn)dlsym(RTLD_NEXT, "accept");
-	if (failAccepts.load() > 0 && failAccepts.fetch_sub(1) > 0) { failedAccepts++; errno = EMFILE; return -1; }
+	if (failAccepts.load() > 0 && failAccepts.fetch_sub(1) > 0) { failedAccepts++; recordFailedAccept(); errno = EMFILE; return -1; }
 	return real(fd, a, l);
 }
 using namespace asl;
@@ -75,6 +76,10 @@ void hook(int kind, const volatile void* addr)
 	}
 }
 
+}
+static void recordFailedAccept() { hook(40, 0); }   // event F of the trace: the model's `acceptFail`
+namespace {
+
 struct TestServer : public SocketServer
 {
 	std::mutex mu;
@@ -117,7 +122,7 @@ static std::string runScenario(bool seq, bool unixSock, bool both, int nclients,
 	TestServer* server = new TestServer;
 	server->setSequential(seq);
 	failedAccepts = 0;
-	failAccepts = (pattern == "afail") ? 3 + (int)(seed % 40) : 0;
+	failAccepts = (pattern == "afail") ? 1 + (int)(seed % 6) : 0;
 	String path;
 	int port = 0;
 	bool bound = false;
@@ -267,6 +272,7 @@ static std::string runScenario(bool seq, bool unixSock, bool both, int nclients,
 		case 26: { int c = e.addr ? (handlerOf.count(e.addr) ? handlerOf[e.addr] : -1) : current; ev = "e" + str(c); } break;
 		case 27: { int c = e.addr ? (handlerOf.count(e.addr) ? handlerOf[e.addr] : -1) : current; ev = "c" + str(c); } break;
 		case 14: if (accTh && e.th == accTh) ev = "E"; break;
+		case 40: ev = "F"; break;
 		case 23: ev = "S"; break;
 		case 24: ev = "s"; break;
 		case 28: ev = "R"; break;
